@@ -303,6 +303,60 @@ func (n *npCtx) provesLe(a, b lin) bool {
 			return true
 		}
 	}
+	// the result of a package function: the bound holds if it holds for the value of every
+	// return statement, in the callee's own context extended by the facts at this call site
+	tryCall := func(call *ssa.Call, upper bool) bool {
+		c := n.c
+		cal := call.Common().StaticCallee()
+		if cal == nil || cal.Blocks == nil || cal.Pkg != c.Pkg || cal.Signature.Results().Len() != 1 {
+			return false
+		}
+		for _, f := range c.frames {
+			if f.Common().StaticCallee() == cal {
+				return false
+			}
+		}
+		if len(c.frames) >= 3 {
+			return false
+		}
+		c.frames = append(c.frames, call)
+		defer func() { c.frames = c.frames[:len(c.frames)-1] }()
+		rets := returnsOf(cal)
+		if len(rets) == 0 {
+			return false
+		}
+		for _, ret := range rets {
+			m, _ := c.npAt(ret, n.fx)
+			m.depth = n.depth + 1
+			for _, s := range []string{a.sym, b.sym} {
+				if v, ok := n.atoms[s]; ok && s != "" {
+					if cv, isCall := v.(*ssa.Call); !isCall || cv != call {
+						m.noteAtom(s, v)
+					}
+				}
+			}
+			le := m.linOf(ret.Results[0])
+			m.searchAxioms()
+			if upper {
+				if !m.provesLe(lin{le.sym, le.k + a.k}, b) {
+					return false
+				}
+			} else if !m.provesLe(a, lin{le.sym, le.k + b.k}) {
+				return false
+			}
+		}
+		return true
+	}
+	if call, ok := n.atoms[a.sym].(*ssa.Call); ok && a.sym != "" {
+		if tryCall(call, true) {
+			return true
+		}
+	}
+	if call, ok := n.atoms[b.sym].(*ssa.Call); ok && b.sym != "" {
+		if tryCall(call, false) {
+			return true
+		}
+	}
 	return false
 }
 
